@@ -364,6 +364,15 @@ def embed(root, record, fmt):
     if not root or root[0].typ != 'T' or not _matches(root[0].text, record['root_target']):
         problems.append(['first-line-not-root-target', root[0].text if root else None, record['root_target']])
         return problems
+    # "long (truncated)" reprs: cutting a value must buy room -- a cut rendering that is as long as the
+    # full repr shows less in the same space (checked on the first line only: it is always the root
+    # target, so the expected repr is not a guess)
+    t0 = root[0].text.rstrip()
+    m0 = re.match(r'^(.*?)\.\.\.( \(len=\d+\))?$', t0, re.S)
+    exp0 = record['root_target']
+    if m0 and len(t0) >= len(exp0) and '0x' not in exp0 and '0x' not in t0:
+        problems.append(['truncated-although-it-fits', t0, exp0])
+        return problems
     path = record['path']
 
     def search(block, bi, pi, gov):
